@@ -156,6 +156,22 @@ Proof.
   destruct (scope_exit s w t None) as [s1 x]. destruct x; apply ctl_ret_pair.
 Qed.
 
+Lemma left_ret_pair (p : st * res) t g : g_left (groups (fst p) g) = true ->
+  g_left (groups (fst (let '(s2, r) := p in ret_to_puppet s2 t r)) g) = true.
+Proof. destruct p as [s2 r]. cbn [fst]. now rewrite groups_ret. Qed.
+
+Lemma wof_finishes_left s t g ws exc : g_tasks (groups s g) = [] ->
+  g_left (groups (fst (aexit_wait_or_finish s t g ws exc)) g) = true.
+Proof.
+  intros Ht. unfold aexit_wait_or_finish. rewrite Ht.
+  assert (L : forall a, g_left (groups (upd_group a g (gr_left true)) g) = true).
+  { intros a. cbn [upd_group set_groups groups]. rewrite upd_same. reflexivity. }
+  destruct ws as [w|].
+  - destruct (scope_exit s w t None) as [s1 x].
+    destruct x; apply left_ret_pair; rewrite ?aexit_finish_groups, ?aexit_raise_groups; apply L.
+  - apply left_ret_pair. rewrite aexit_finish_groups. apply L.
+Qed.
+
 Lemma wof_finishes s t g ws exc : aexit_pre s t g ws -> g_tasks (groups s g) = [] ->
   s_active (scopes (fst (aexit_wait_or_finish s t g ws exc)) (g_scope (groups s g))) = false.
 Proof.
